@@ -4,6 +4,7 @@ mod dbfmt;
 mod json;
 mod model;
 mod props;
+mod pure;
 mod report;
 mod rng;
 mod sim;
@@ -24,6 +25,13 @@ pub struct Ctx {
     pub max_cases: u64,
     pub journal: Option<PathBuf>,
     pub verbose: bool,
+    /// start the case/input enumeration here (abort attribution)
+    pub from_case: Option<u64>,
+    /// journal every input instead of every 1024th
+    pub fine_journal: bool,
+    pub out: Option<PathBuf>,
+    pub last_checkpoint: std::cell::Cell<Instant>,
+    pub started: Instant,
 }
 
 impl Ctx {
@@ -32,6 +40,24 @@ impl Ctx {
     }
     pub fn expired(&self) -> bool {
         Instant::now() >= self.deadline
+    }
+    /// Write the report collected so far (at most once a second), so that a
+    /// worker killed by an abort inside n2 does not take its observations with it.
+    pub fn checkpoint(&self, rep: &Report) {
+        let Some(out) = &self.out else { return };
+        if self.only_case.is_some() || self.last_checkpoint.get().elapsed() < Duration::from_millis(1000) {
+            return;
+        }
+        self.last_checkpoint.set(Instant::now());
+        let mut j = rep.to_json();
+        j.set("wall_s", json::J::Num(self.started.elapsed().as_secs_f64()));
+        j.set("seed", json::J::i(self.seed));
+        j.set("shard", json::J::i(self.shard));
+        j.set("checkpoint", json::J::Bool(true));
+        let tmp = out.with_extension("tmp");
+        if std::fs::write(&tmp, j.dump()).is_ok() {
+            let _ = std::fs::rename(&tmp, out);
+        }
     }
     pub fn journal(&self, case: u64) {
         if let Some(p) = &self.journal {
@@ -101,11 +127,17 @@ fn main() {
         max_cases,
         journal: out.as_ref().map(|p| p.with_extension("journal")),
         verbose,
+        from_case: arg(&args, "--from-case").and_then(|s| s.parse().ok()),
+        fine_journal: args.iter().any(|a| a == "--fine-journal"),
+        out: out.clone().filter(|p| p != std::path::Path::new("/dev/null") && p != std::path::Path::new("/dev/stderr")),
+        last_checkpoint: std::cell::Cell::new(Instant::now()),
+        started: Instant::now(),
     };
     let mut report = Report::new(&prop);
     let started = Instant::now();
     match engine.as_str() {
         "sim" => props::run_sim(&ctx, &mut report),
+        "pure" => pure::run(&ctx, &mut report),
         other => {
             eprintln!("unknown engine {}", other);
             std::process::exit(2);
